@@ -476,6 +476,15 @@ def run_cases(ctx, drv, mdl, cases, tag, fx="cur"):
     out = run_sharded(drv, ["%s %s" % (r["dir"], FG.ORIGIN) for r in recs], root, "cpp")
     for r, l in zip(recs, out):
         r["cpp"] = fields(l)
+    # a time-out can be the machine's (16 cores shared with other checks): such cases are run again, alone, before they count
+    for attempt in range(2):
+        again = [r for r in recs if "RAW" in r["cpp"] or r["cpp"].get("F") == "TIMEOUT"]
+        if not again:
+            break
+        out2 = run_sharded(drv, ["%s %s" % (r["dir"], FG.ORIGIN) for r in again], root, "cpp_retry%d" % attempt, nshards=2)
+        for r, l in zip(again, out2):
+            r["cpp"] = fields(l)
+            r["retried"] = attempt + 1
     mo = run_sharded(mdl, ["%s %s" % (fx, r["cpp"].get("X", "")) for r in recs], root, "ml")
     for r, l in zip(recs, mo):
         r["ml"] = fields(l)
